@@ -204,6 +204,6 @@ pub fn run(ctx: &Ctx) -> Report {
         let st = explore(&ctx.pool, c12::api_jobs(ctx, true), j);
         rep.part("library client (apiprobe): copy() returns and the channel closes", st, serde_json::json!({"d": 1}));
     }
-    rep.assumptions = vec!["hangs are decided structurally by the supervisor; the wall-clock cap applies only to a thread stuck inside a real kernel call".into(), "step budget 200000 per execution".into()];
+    rep.assumptions = vec!["hangs are decided structurally by the supervisor; the wall-clock cap applies only to a thread stuck inside a real kernel call".into(), "step budget 60000 per execution (millions for the 300-file scenarios); no exploration below an execution that already hangs".into()];
     rep
 }
